@@ -205,6 +205,22 @@ pub fn action_with_filters(filters: &[F]) -> Action {
     .expect("action json")
 }
 
+/// the same filters, each admitted on response code 404 only (with a rule id, as a rule would give it)
+pub fn action_with_filters_on_404(filters: &[F]) -> Action {
+    let hf: Vec<Value> = filters
+        .iter()
+        .map(|f| {
+            json!({"filter": {"action": f.action, "header": f.header, "value": f.value, "id": f.id().or(Some("unit-x".to_string())), "target_hash": f.target_hash()},
+                   "on_response_status_codes": [404], "exclude_response_status_codes": false, "rule_id": "r404"})
+        })
+        .collect();
+    serde_json::from_value(json!({
+        "status_code_update": null, "header_filters": hf, "body_filters": [], "rule_ids": ["r404"],
+        "rule_traces": [{"id": "r404", "on_response_status_codes": [404], "exclude_response_status_codes": false}], "rules_applied": [], "log_override": null
+    }))
+    .expect("action json")
+}
+
 pub fn check_case(headers: &[H], filters: &[F]) -> Vec<(String, String)> {
     let mut out = Vec::new();
     let mut want = headers.to_vec();
@@ -247,6 +263,23 @@ pub fn check_case(headers: &[H], filters: &[F]) -> Vec<(String, String)> {
     let got3 = from_headers(action.filter_headers(to_headers(headers), 200, false, Some(&mut trace)));
     if got3 != want {
         out.push((format!("action-filter-headers-with-unit-trace:{}", culprit(&got3)), format!("Action::filter_headers(.., Some(trace)) gives {got3:?}, reference fold gives {want:?}")));
+    }
+    // filters of a rule that admits code 404 only: nothing happens on a 200 (with and without a unit trace), everything on a 404
+    if !filters.is_empty() {
+        let mut trace = redirectionio::action::UnitTrace::default();
+        let mut action = action_with_filters_on_404(filters);
+        let g200 = from_headers(action.filter_headers(to_headers(headers), 200, false, Some(&mut trace)));
+        let mut action = action_with_filters_on_404(filters);
+        let g200n = from_headers(action.filter_headers(to_headers(headers), 200, false, None));
+        let mut action = action_with_filters_on_404(filters);
+        let mut trace = redirectionio::action::UnitTrace::default();
+        let g404 = from_headers(action.filter_headers(to_headers(headers), 404, false, Some(&mut trace)));
+        if g200 != headers || g200n != headers {
+            out.push(("action-filter-headers:filter-applied-on-a-code-its-rule-does-not-admit".to_string(), format!("filters admitted on 404 only, response code 200: with a unit trace {g200:?}, without {g200n:?}, incoming {headers:?}")));
+        }
+        if g404 != want {
+            out.push((format!("action-filter-headers-with-unit-trace:{}:admitted-code", culprit(&g404)), format!("filters admitted on 404, response code 404 with a unit trace: {g404:?}, reference fold gives {want:?}")));
+        }
     }
     // the same with the rule-ids header asked for: the filtered list is unchanged and ONE header is appended after it, whatever
     // the list already holds (a header of that name from the backend or from a filter is an ordinary header)
